@@ -376,9 +376,13 @@ func (o *oidcHandler) retrieveTokens(ctx context.Context, log telemetry.Logger, 
 	}
 
 	// Knock 5 seconds off the expiry time to take into account the time it may
-	// have taken to retrieve the token.
-	expiresIn := time.Duration(bodyTokens.ExpiresIn)*time.Second - 5
-	accessTokenExpiration := o.clock.Now().Add(expiresIn)
+	// have taken to retrieve the token. When the provider does not tell when the
+	// access token expires the expiration is left unset (zero means unknown).
+	var accessTokenExpiration time.Time
+	if bodyTokens.ExpiresIn > 0 {
+		expiresIn := time.Duration(bodyTokens.ExpiresIn)*time.Second - 5
+		accessTokenExpiration = o.clock.Now().Add(expiresIn)
+	}
 
 	log.Debug("saving tokens to session store")
 	if err := store.SetTokenResponse(ctx, sessionID, &oidc.TokenResponse{
